@@ -12,6 +12,7 @@
 -/
 import RaftVerif.Proofs.LeaderSpecs
 import RaftVerif.Proofs.ReplSafety
+import RaftVerif.Proofs.ReplExample
 import RaftVerif.Properties.C06
 set_option linter.unusedSimpArgs false
 namespace Raft
@@ -113,5 +114,34 @@ theorem C04_applied_prefix_never_rewritten {cfg : Config} (hnd : cfg.voterIds.No
     (hmono : (s.nodes n).commit ≤ (s'.nodes n).commit) :
     (s'.nodes n).log.take (s.nodes n).commit = (s.nodes n).log.take (s.nodes n).commit :=
   Repl.applied_prefix_stable hnd hr hfrom n hmono
+
+/-- **Acknowledged ⇒ on a majority, at that moment** (cluster level, the statement's first clause).
+    In any reachable state of the replication-layer model, whenever the leader `l` may advance its
+    commit index to `i` (the guard of the code's commit rule: an entry of its own term at `i`, a
+    quorum of voters `Q` whose acknowledgements of this term reach `i`), every member of `Q` holds,
+    in its log and at that very moment, exactly the leader's first `i` entries — the acknowledged
+    operation and everything before it. (An acknowledgement alone is a fact about the past; that the
+    entries are still there follows because a quorum-acknowledged position is never dead.) -/
+theorem C04_acknowledged_is_on_a_majority {cfg : Config} (hnd : cfg.voterIds.Nodup) {s : Repl.AState}
+    (hr : Repl.Reachable cfg s) (l i : Nat) (Q : List Nat) (hl : (s.nodes l).role = .leader) (h1 : 1 ≤ i)
+    (hil : i ≤ (s.nodes l).log.length) (hti : Repl.termAt (s.nodes l).log i = (s.nodes l).term)
+    (hQ : Repl.IsQuorum cfg Q) (hack : ∀ m ∈ Q, ∃ j, i ≤ j ∧ (m, j, (s.nodes l).term) ∈ s.acked) :
+    ∀ m ∈ Q, (s.nodes m).log.take i = (s.nodes l).log.take i := by
+  have hi := Repl.inv_reachable hnd hr
+  have hg := hi.leader_glog l hl
+  have hnd' : ¬ Repl.Dead cfg s i (s.nodes l).term := Repl.not_dead_of_quorumAcked hnd ⟨Q, hQ, hack⟩
+  intro m hm
+  obtain ⟨j, hij, hmem⟩ := hack m hm
+  rcases hi.ack_prefix m j (s.nodes l).term l (s.nodes l).log i hmem hg h1 hij hti with h | h
+  · exact h
+  · exact absurd h hnd'
+
+/-- non-vacuity: in the example run (Proofs/ReplExample.lean) the leader 1 and node 2 form such a
+    quorum for index 2 -/
+example : Repl.Reachable Repl.cfg3 Repl.s7 ∧ (Repl.s7.nodes 1).role = .leader ∧ 2 ≤ (Repl.s7.nodes 1).log.length ∧
+    Repl.termAt (Repl.s7.nodes 1).log 2 = (Repl.s7.nodes 1).term ∧ Repl.IsQuorum Repl.cfg3 [1, 2] ∧
+    (∀ m ∈ [1, 2], ∃ j, 2 ≤ j ∧ (m, j, (Repl.s7.nodes 1).term) ∈ Repl.s7.acked) :=
+  ⟨Repl.s7_reachable, by decide, by decide, by decide, Repl.quorum12,
+   by intro m hm; simp at hm; rcases hm with h | h <;> subst h <;> exact ⟨2, by decide, by decide⟩⟩
 
 end Raft
